@@ -355,7 +355,9 @@ class CallMixin:
         n_before = len(self.obligations)
         try:
             outs = self.exec_block(fdef.body, st.copy())
-        except Unsupported as ex:
+        except (Unsupported, AttributeError, KeyError) as ex:
+            if not isinstance(ex, Unsupported):
+                ex = Unsupported(f"MOVED: a contract clause does not fit the current code ({type(ex).__name__}: {ex})")
             del self.obligations[n_before - 1:]
             self.unsupported.append((con.target, str(ex)))
             return False
@@ -396,6 +398,8 @@ class CallMixin:
                     self.emit("raises.unexpected", o.value, o.state, z3.BoolVal(False), note=f"undeclared exception {o.value}")
                 elif r.when is not None:
                     self.emit("raises.only", r.label, o.state, r.when(Ctx(self, self.entry_state, self.entry_state), **vals))
+                for label, fn in con.raise_ensures:
+                    self.emit("raises.post", label, o.state, fn(cx, o.value, **vals))
             else:
                 self.unsupported.append((con.target, f"{o.kind} escaped the function body"))
         if con.ensures and reached["return"] == 0:
